@@ -1736,6 +1736,8 @@ class Translator:
 def extract(tu_rel, roots, out_c, opts=None, optional_roots=()):
     chunks = astload.load(tu_rel)
     t = Translator(chunks, opts)
+    for ty in (opts or {}).get('force_types', ()) or ():
+        t.ctype_s(ty)          # types the spec headers mention even when no extracted function uses them
     rootnames = t.run(roots)
     if optional_roots: t.run(optional_roots, optional=True)
     need = t.closure(rootnames)
